@@ -241,9 +241,13 @@ func mainErr(args []string) error {
 		return commandMap(args)
 	case "bug":
 		return commandBug(args)
+	case "verif":
+		return verifCommand(args)
 	case "build", "test", "run":
+		verifEvent("cmd-start", "command", command, "args", args, "inherited_shared", os.Getenv("GARBLE_SHARED"))
 		cmd, err := toolexecCmd(command, args)
 		defer func() {
+			verifEvent("shared-remove", "dir", os.Getenv("GARBLE_SHARED"), "trim", sharedCache != nil && sharedCache.CacheDir != "")
 			if err := os.RemoveAll(os.Getenv("GARBLE_SHARED")); err != nil {
 				fmt.Fprintf(os.Stderr, "could not clean up GARBLE_SHARED: %v\n", err)
 			}
@@ -264,9 +268,12 @@ func mainErr(args []string) error {
 		cmd.Stdout = os.Stdout
 		cmd.Stderr = os.Stderr
 		log.Printf("calling via toolexec: %s", cmd)
+		verifEvent("go-start", "argv", cmd.Args)
 		if err := cmd.Run(); err != nil {
+			verifEvent("go-done", "ok", false)
 			return err
 		}
+		verifEvent("go-done", "ok", true)
 		return restoreDebugDirFromCache()
 
 	case "toolexec":
@@ -285,6 +292,7 @@ func mainErr(args []string) error {
 			if err := loadSharedCache(); err != nil {
 				return err
 			}
+			verifEvent("toolexec-start", "tool", tool, "pkg", os.Getenv("TOOLEXEC_IMPORTPATH"), "version", len(args) == 2 && args[1] == "-V=full")
 
 			if len(args) == 2 && args[1] == "-V=full" {
 				return alterToolVersion(tool, args)
@@ -313,6 +321,7 @@ func mainErr(args []string) error {
 				return fmt.Errorf("cannot get modified linker: %v", err)
 			}
 			defer unlock()
+			defer verifEvent("link-unlock")
 
 			executablePath = modifiedLinkPath
 			os.Setenv(linker.MagicValueEnv, strconv.FormatUint(uint64(magicValue()), 10))
@@ -327,9 +336,12 @@ func mainErr(args []string) error {
 		cmd := exec.Command(executablePath, transformed...)
 		cmd.Stdout = os.Stdout
 		cmd.Stderr = os.Stderr
+		verifEvent("tool-run", "tool", tool, "pkg", os.Getenv("TOOLEXEC_IMPORTPATH"), "exe", executablePath, "argv", transformed)
 		if err := cmd.Run(); err != nil {
+			verifEvent("tool-done", "tool", tool, "pkg", os.Getenv("TOOLEXEC_IMPORTPATH"), "ok", false)
 			return err
 		}
+		verifEvent("tool-done", "tool", tool, "pkg", os.Getenv("TOOLEXEC_IMPORTPATH"), "ok", true)
 		return nil
 	default:
 		return fmt.Errorf("unknown command: %q", command)
@@ -414,6 +426,7 @@ This command wraps "go %s". Below is its help:
 		return nil, err
 	}
 	os.Setenv("GARBLE_SHARED", sharedTempDir)
+	verifEvent("shared-created", "dir", sharedTempDir, "command", command, "cache_dir", sharedCache.CacheDir)
 
 	if flagDebugDir != "" {
 		origDir := flagDebugDir
@@ -428,10 +441,12 @@ This command wraps "go %s". Below is its help:
 		} else if _, err := os.Lstat(sentinel); err == nil {
 			// It's OK to delete a non-empty directory which was created by an earlier
 			// invocation of `garble -debugdir`, which we know by leaving a sentinel file.
+			verifEvent("debugdir-empty-owned", "dir", flagDebugDir)
 			if err := os.RemoveAll(flagDebugDir); err != nil {
 				return nil, fmt.Errorf("could not empty debugdir: %v", err)
 			}
 		} else {
+			verifEvent("debugdir-rejected", "dir", flagDebugDir)
 			return nil, fmt.Errorf("debugdir %q has unknown contents; empty it first", origDir)
 		}
 
@@ -441,6 +456,7 @@ This command wraps "go %s". Below is its help:
 		if err := os.WriteFile(sentinel, nil, 0o666); err != nil {
 			return nil, fmt.Errorf("could not create debugdir sentinel: %v", err)
 		}
+		verifEvent("debugdir-claimed", "dir", flagDebugDir)
 	}
 
 	goArgs := append([]string{command}, garbleBuildFlags...)
@@ -474,6 +490,7 @@ This command wraps "go %s". Below is its help:
 		if err != nil {
 			return nil, err
 		}
+		verifEvent("debugdir-needs-rebuild", "needs", needsRebuild)
 		if needsRebuild {
 			// Warm up debugdir cache entries on first run.
 			// Subsequent runs can reuse cache and avoid forcing rebuilds.
